@@ -14,6 +14,25 @@ os.environ['BLOCHSA_NO_CANON'] = '1'
 from blochsa.facts import Facts    # noqa: E402
 
 
+def _fields_mentioned(body, rname, fields):
+    """sorted names of the record's own data members a method body mentions: a second fingerprint for rename resolution (a new method is
+    taken for a renamed old one only if it works on the same members)"""
+    out = set()
+
+    def rec(n):
+        if isinstance(n, list):
+            for x in n:
+                rec(x)
+        elif isinstance(n, dict):
+            if n.get('k') == 'member' and isinstance(n.get('q'), str) and n['q'].startswith(rname + '::') and n.get('name') in fields:
+                out.add(n['name'])
+            for v in n.values():
+                if isinstance(v, (dict, list)):
+                    rec(v)
+    rec(body)
+    return sorted(out)
+
+
 def main():
     F = Facts()
     out = {'records': {}, 'files': {}}
@@ -24,7 +43,8 @@ def main():
         meths.sort(key=lambda f: (f.file, f.ln))
         out['records'][name] = {
             'fields': [[x['name'], x['type']] for x in r.get('fields', [])],
-            'methods': [[f.short, f.sig, f.ret, bool(f.d.get('const')), bool(f.d.get('static')), f.kind] for f in meths if f.kind == 'method'],
+            'methods': [[f.short, f.sig, f.ret, bool(f.d.get('const')), bool(f.d.get('static')), f.kind, _fields_mentioned(f.d.get('body'), name, {x['name'] for x in r.get('fields', [])})]
+                        for f in meths if f.kind == 'method'],
         }
     byfile = {}
     for f in F.functions:
